@@ -226,6 +226,10 @@ def make_template(job):
         opts["translate"] = upper_translate
     if "filename" in job:
         return cls(job["filename"], **opts)
+    if job.get("as_bytes") == "utf-8-sig":
+        # the same text, given as bytes behind a byte-order mark
+        import codecs
+        return cls(codecs.BOM_UTF8 + job["body"].encode("utf-8"), **opts)
     return cls(job["body"], **opts)
 
 
